@@ -421,8 +421,20 @@ func EdgeFacts(b *ssa.BasicBlock, idx int) []Fact {
 	if !ok || b.Succs[0] == b.Succs[1] {
 		return nil
 	}
+	if n := len(curSuffix); n > 0 && curSuffix[n-1] == b {
+		// inside a path search: resolve phis along the path that led here
+		if fs, feasible := FactsOnPath(ifi.Cond, idx == 0, curSuffix); feasible {
+			return fs
+		}
+	}
 	return Facts(ifi.Cond, idx == 0)
 }
+
+// curSuffix is the last blocks of the path the cut engine is extending while it asks a Cut
+// predicate about an edge (the predicates call EdgeFacts); nil outside a search.
+var curSuffix []*ssa.BasicBlock
+
+const cutK = 6
 
 // ---------- the cut engine ----------
 
@@ -456,26 +468,70 @@ func CutReach(s CutSpec) []*ssa.BasicBlock {
 		b    *ssa.BasicBlock
 		prev *node
 	}
-	// state = (block, predecessor) because Target may depend on the incoming edge
-	seen := map[[2]int]bool{}
+	suffix := func(n *node) []*ssa.BasicBlock {
+		var out []*ssa.BasicBlock
+		for x := n; x != nil && len(out) < cutK; x = x.prev {
+			out = append([]*ssa.BasicBlock{x.b}, out...)
+		}
+		return out
+	}
+	type stateKey [cutK + 1]int
+	key := func(sfx []*ssa.BasicBlock, next *ssa.BasicBlock) stateKey {
+		var k stateKey
+		for i := range k {
+			k[i] = -1
+		}
+		all := append(append([]*ssa.BasicBlock{}, sfx...), next)
+		if len(all) > cutK+1 {
+			all = all[len(all)-cutK-1:]
+		}
+		for i, b := range all {
+			k[i] = b.Index
+		}
+		return k
+	}
+	// state = the last blocks of the path: a Cut predicate may hold on an edge only for some of
+	// the ways the edge is reached (phis), and Target may depend on the incoming edge
+	seen := map[stateKey]bool{}
 	queue := []*node{{b: start}}
 	if s.Target(nil, start) {
 		return []*ssa.BasicBlock{start}
 	}
+	saved := curSuffix
+	defer func() { curSuffix = saved }()
 	for len(queue) > 0 {
 		n := queue[0]
 		queue = queue[1:]
+		sfx := suffix(n)
+		var ifi *ssa.If
+		if len(n.b.Instrs) > 0 && len(n.b.Succs) == 2 && n.b.Succs[0] != n.b.Succs[1] {
+			ifi, _ = n.b.Instrs[len(n.b.Instrs)-1].(*ssa.If)
+		}
 		for i, succ := range n.b.Succs {
-			if s.Cut != nil && s.Cut(n.b, i) {
+			if ifi != nil {
+				// an edge the path itself rules out (a phi condition that took the other constant,
+				// or a comparison the path has already decided the other way)
+				fs, feasible := FactsOnPath(ifi.Cond, i == 0, sfx)
+				if !feasible || contradictsPath(fs, sfx) {
+					continue
+				}
+			}
+			curSuffix = sfx
+			cut := s.Cut != nil && s.Cut(n.b, i)
+			curSuffix = saved
+			if cut {
 				continue
 			}
-			key := [2]int{n.b.Index, succ.Index}
-			if seen[key] {
+			k := key(sfx, succ)
+			if seen[k] {
 				continue
 			}
-			seen[key] = true
+			seen[k] = true
 			nn := &node{b: succ, prev: n}
-			if s.Target(n.b, succ) {
+			curSuffix = append(append([]*ssa.BasicBlock{}, sfx...), succ)
+			hit := s.Target(n.b, succ)
+			curSuffix = saved
+			if hit {
 				var path []*ssa.BasicBlock
 				for x := nn; x != nil; x = x.prev {
 					path = append([]*ssa.BasicBlock{x.b}, path...)
@@ -489,6 +545,66 @@ func CutReach(s CutSpec) []*ssa.BasicBlock {
 		}
 	}
 	return nil
+}
+
+// contradictsPath: one of the facts fs is the negation of a fact established by an earlier
+// edge of the (acyclic) path suffix. SSA values are immutable, so on a path that visits no
+// block twice a comparison of the same two values cannot come out both ways.
+func contradictsPath(fs []Fact, sfx []*ssa.BasicBlock) bool {
+	seen := map[*ssa.BasicBlock]bool{}
+	for _, b := range sfx {
+		if seen[b] {
+			return false
+		}
+		seen[b] = true
+	}
+	for j := 0; j+1 < len(sfx); j++ {
+		b, nb := sfx[j], sfx[j+1]
+		if len(b.Succs) != 2 || b.Succs[0] == b.Succs[1] || len(b.Instrs) == 0 {
+			continue
+		}
+		ifi, ok := b.Instrs[len(b.Instrs)-1].(*ssa.If)
+		if !ok {
+			continue
+		}
+		idx := 0
+		if b.Succs[1] == nb {
+			idx = 1
+		}
+		efs, feasible := FactsOnPath(ifi.Cond, idx == 0, sfx[:j+1])
+		if !feasible {
+			continue
+		}
+		for _, e := range efs {
+			for _, f := range fs {
+				if factsContradict(e, f) {
+					return true
+				}
+			}
+		}
+	}
+	return false
+}
+
+func factsContradict(a, b Fact) bool {
+	if a.Op == token.ILLEGAL || b.Op == token.ILLEGAL {
+		return a.Op == token.ILLEGAL && b.Op == token.ILLEGAL && a.V != nil && a.V == b.V && a.Truth != b.Truth
+	}
+	same := (a.X == b.X && a.Y == b.Y) || (a.X == b.Y && a.Y == b.X && (a.Op == token.EQL || a.Op == token.NEQ))
+	if !same {
+		// nil constants are distinct SSA values: compare them by nil-ness
+		if !(sameOrBothNil(a.X, b.X) && sameOrBothNil(a.Y, b.Y)) {
+			return false
+		}
+	}
+	return (a.Op == token.EQL && b.Op == token.NEQ) || (a.Op == token.NEQ && b.Op == token.EQL)
+}
+
+func sameOrBothNil(x, y ssa.Value) bool {
+	if x == y {
+		return true
+	}
+	return IsNilConst(x) && IsNilConst(y)
 }
 
 // PathString renders a witness path with source lines.
@@ -549,6 +665,50 @@ func ResultOf(v ssa.Value, call ssa.Value, idx int) bool {
 		return true
 	}
 	if e, ok := v.(*ssa.Extract); ok && e.Tuple == call && (idx < 0 || e.Index == idx) {
+		return true
+	}
+	// a merge of that result with zero values only (the shape an inlined helper's early error
+	// returns leave: `return nil, nil, err` next to `return f(...)`)
+	if ph, ok := v.(*ssa.Phi); ok {
+		hit := false
+		for _, e := range ph.Edges {
+			switch {
+			case e == ssa.Value(ph):
+			case isZeroConst(e):
+			case resultOfNoPhi(e, call, idx):
+				hit = true
+			default:
+				if p2, ok := e.(*ssa.Phi); ok && p2 != ph && ResultOf(p2, call, idx) {
+					hit = true
+					continue
+				}
+				return false
+			}
+		}
+		return hit
+	}
+	return false
+}
+
+func resultOfNoPhi(v ssa.Value, call ssa.Value, idx int) bool {
+	if _, ok := v.(*ssa.Phi); ok {
+		return false
+	}
+	return ResultOf(v, call, idx)
+}
+
+func isZeroConst(v ssa.Value) bool {
+	c, ok := v.(*ssa.Const)
+	if !ok {
+		return false
+	}
+	if c.Value == nil {
+		return true
+	}
+	if k, isC := ConstInt(c); isC && k == 0 {
+		return true
+	}
+	if b, isB := ConstBool(c); isB && !b {
 		return true
 	}
 	return false
@@ -1040,6 +1200,10 @@ func accessPath(v ssa.Value, d int) string {
 	case *ssa.Parameter:
 		return "P:" + x.Name()
 	case *ssa.FreeVar:
+		// a captured variable is the parent's variable
+		if b := freeVarBinding(x); b != nil {
+			return accessPath(b, d+1)
+		}
 		return "FV:" + x.Name()
 	case *ssa.Global:
 		return "G:" + x.String()
@@ -1095,6 +1259,17 @@ func singleStore(a *ssa.Alloc) *ssa.Store {
 			}
 			st = r
 		case *ssa.UnOp, *ssa.FieldAddr, *ssa.MakeClosure, *ssa.DebugRef:
+		case ssa.CallInstruction:
+			// the address is handed to a module function that only reads through it
+			f := StaticCalleeFn(r)
+			if f == nil || !InModule(f) || f.Blocks == nil {
+				return nil
+			}
+			for i, arg := range r.Common().Args {
+				if arg == ssa.Value(a) && (i >= len(f.Params) || !paramReadOnly(f.Params[i])) {
+					return nil
+				}
+			}
 		default:
 			return nil
 		}
@@ -1114,4 +1289,63 @@ func SameValue(a, b ssa.Value) bool {
 // Is returns a predicate matching values that denote the same value/location as target.
 func Is(target ssa.Value) func(ssa.Value) bool {
 	return func(v ssa.Value) bool { return SameValue(v, target) }
+}
+
+// freeVarBinding returns the value the enclosing function binds to free variable fv when it
+// creates the closure (nil if the closure is created at several places with different bindings).
+func freeVarBinding(fv *ssa.FreeVar) ssa.Value {
+	fn := fv.Parent()
+	if fn == nil || fn.Parent() == nil {
+		return nil
+	}
+	idx := -1
+	for i, f := range fn.FreeVars {
+		if f == fv {
+			idx = i
+		}
+	}
+	if idx < 0 {
+		return nil
+	}
+	var out ssa.Value
+	for _, b := range fn.Parent().Blocks {
+		for _, in := range b.Instrs {
+			if mc, ok := in.(*ssa.MakeClosure); ok && mc.Fn == ssa.Value(fn) && idx < len(mc.Bindings) {
+				if out != nil && out != mc.Bindings[idx] {
+					return nil
+				}
+				out = mc.Bindings[idx]
+			}
+		}
+	}
+	return out
+}
+
+// paramReadOnly: the pointer parameter is only loaded from (directly or through a field or
+// element address); it is not stored, passed on or written through.
+func paramReadOnly(pa *ssa.Parameter) bool {
+	refs := pa.Referrers()
+	if refs == nil {
+		return true
+	}
+	for _, r := range *refs {
+		switch x := r.(type) {
+		case *ssa.UnOp:
+			if x.Op != token.MUL {
+				return false
+			}
+		case *ssa.FieldAddr, *ssa.IndexAddr:
+			if rr := x.(ssa.Value).Referrers(); rr != nil {
+				for _, r2 := range *rr {
+					if u, ok := r2.(*ssa.UnOp); !ok || u.Op != token.MUL {
+						return false
+					}
+				}
+			}
+		case *ssa.DebugRef:
+		default:
+			return false
+		}
+	}
+	return true
 }
